@@ -11,10 +11,12 @@
 (*   phase   idle / queue (inside QueuePackage) / flush (inside SendRemainingPackets or SendPackage) *)
 (*   typ     header type the channel had when the running call started                               *)
 (*   judged  FALSE after a call in the current message failed (residue: outside C01's quantifier)    *)
+(*   wopen   the transport has seen packets since the last EOM packet: a message is open on the wire  *)
+(*           (also one that the client gave up with a failed flush)                                   *)
 EXTENDS TraceBase
 
-VARIABLES l, ps, chan, nr, queued, wired, closed, phase, typ, judged, cancelled, failing
-vars == <<l, ps, chan, nr, queued, wired, closed, phase, typ, judged, cancelled, failing>>
+VARIABLES l, ps, chan, nr, queued, wired, closed, phase, typ, judged, cancelled, failing, wopen
+vars == <<l, ps, chan, nr, queued, wired, closed, phase, typ, judged, cancelled, failing, wopen>>
 
 \* The property under judgement (environment variable JUDGE): C01 judges the packet sequence, C13 the
 \* sends with a cancelled context, C14 the calls that run into a failing transport.
@@ -27,37 +29,37 @@ E == Trace[l]
 IsEvent(e) == l <= Len(Trace) /\ Trace[l].ev = e /\ l' = l + 1
 
 Init == /\ l = 1 /\ ps = 512 /\ chan = 0 /\ nr = 0 /\ queued = 0 /\ wired = 0 /\ closed = FALSE
-        /\ phase = "idle" /\ typ = 15 /\ judged = TRUE /\ cancelled = FALSE /\ failing = FALSE /\ HWInit
+        /\ phase = "idle" /\ typ = 15 /\ judged = TRUE /\ cancelled = FALSE /\ failing = FALSE /\ wopen = FALSE /\ HWInit
 
 T_Reset == /\ IsEvent("Reset")
            /\ ps' = 512 /\ chan' = 0 /\ nr' = 0 /\ queued' = 0 /\ wired' = 0 /\ closed' = FALSE
-           /\ phase' = "idle" /\ typ' = 15 /\ judged' = TRUE /\ cancelled' = FALSE /\ failing' = FALSE
+           /\ phase' = "idle" /\ typ' = 15 /\ judged' = TRUE /\ cancelled' = FALSE /\ failing' = FALSE /\ wopen' = FALSE
 T_Chan == /\ IsEvent("Chan") /\ chan' = E.id /\ ps' = E.ps /\ typ' = E.typ /\ nr' = E.nr
-          /\ UNCHANGED <<queued, wired, closed, phase, judged, cancelled, failing>>
+          /\ UNCHANGED <<queued, wired, closed, phase, judged, cancelled, failing, wopen>>
 \* the peer renegotiated the packet size between two messages
 T_PacketSize == /\ IsEvent("PacketSize") /\ phase = "idle" /\ queued = 0
                 \* inside the range a server may negotiate the size in force is the announced one; outside
                 \* of it (the tiny sizes of the model's scope) it is what the connection reports
                 /\ ps' = IF E.ps >= 256 /\ E.ps <= 65535 THEN E.ps ELSE E.applied
-                /\ UNCHANGED <<chan, nr, queued, wired, closed, phase, typ, judged, cancelled, failing>>
+                /\ UNCHANGED <<chan, nr, queued, wired, closed, phase, typ, judged, cancelled, failing, wopen>>
 T_SetType == /\ IsEvent("SetType") /\ phase = "idle"
-             /\ UNCHANGED <<ps, chan, nr, queued, wired, closed, phase, typ, judged, cancelled, failing>>
+             /\ UNCHANGED <<ps, chan, nr, queued, wired, closed, phase, typ, judged, cancelled, failing, wopen>>
 
 \* the transport will fail within the coming writes: the call that hits the failure must report an
 \* error (C14), and the message is not judged any further
 T_WriteFail == /\ IsEvent("WriteFail") /\ phase = "idle" /\ judged' = FALSE /\ failing' = TRUE
-               /\ UNCHANGED <<ps, chan, nr, queued, wired, closed, phase, typ, cancelled>>
+               /\ UNCHANGED <<ps, chan, nr, queued, wired, closed, phase, typ, cancelled, wopen>>
 T_Queue == /\ IsEvent("Queue") /\ phase = "idle"
            /\ phase' = "queue" /\ queued' = queued + E.n /\ typ' = E.typ
            /\ cancelled' = (E.ctx = "cancelled")
-           /\ UNCHANGED <<ps, chan, nr, wired, closed, judged, failing>>
+           /\ UNCHANGED <<ps, chan, nr, wired, closed, judged, failing, wopen>>
 T_Flush == /\ IsEvent("Flush") /\ phase = "idle"
            /\ phase' = "flush" /\ typ' = E.typ /\ cancelled' = (E.ctx = "cancelled")
-           /\ UNCHANGED <<ps, chan, nr, queued, wired, closed, judged, failing>>
+           /\ UNCHANGED <<ps, chan, nr, queued, wired, closed, judged, failing, wopen>>
 T_Send == /\ IsEvent("Send") /\ phase = "idle"
           /\ phase' = "flush" /\ queued' = queued + E.n /\ typ' = E.typ
           /\ cancelled' = (E.ctx = "cancelled")
-          /\ UNCHANGED <<ps, chan, nr, wired, closed, judged, failing>>
+          /\ UNCHANGED <<ps, chan, nr, wired, closed, judged, failing, wopen>>
 
 \* one packet observed on the transport
 T_Wire ==
@@ -81,18 +83,19 @@ T_Wire ==
                ELSE /\ E.hlen = ps                   \* every packet but the last is full
                     /\ closed' = FALSE
        ELSE wired' = wired + E.n /\ closed' = (closed \/ E.eom)
+    /\ wopen' = ~E.eom
     /\ UNCHANGED <<ps, chan, queued, phase, typ, judged, cancelled, failing>>
 
 \* a packet cut short by the failing transport
 T_WireGarbage == /\ IsEvent("WireGarbage") /\ failing
-                 /\ UNCHANGED <<ps, chan, nr, queued, wired, closed, phase, typ, judged, cancelled, failing>>
+                 /\ UNCHANGED <<ps, chan, nr, queued, wired, closed, phase, typ, judged, cancelled, failing, wopen>>
 T_QueueEnd ==
     /\ IsEvent("QueueEnd") /\ phase = "queue" /\ phase' = "idle"
     /\ (J01 /\ ~cancelled /\ ~failing => E.st = "ok")      \* packages that encode are queued without error
     /\ E.st # "panic"
     /\ judged' = (judged /\ E.st = "ok")
     /\ cancelled' = FALSE
-    /\ UNCHANGED <<ps, chan, nr, queued, wired, closed, typ, failing>>
+    /\ UNCHANGED <<ps, chan, nr, queued, wired, closed, typ, failing, wopen>>
 
 T_FlushEnd ==
     /\ IsEvent("FlushEnd") /\ phase = "flush" /\ phase' = "idle"
@@ -102,9 +105,12 @@ T_FlushEnd ==
     \* a flush with a cancelled context writes nothing (T_Wire); it may report success only when
     \* nothing was left to send
     /\ (J13 /\ judged /\ cancelled /\ E.st = "ok") => (wired = queued /\ (queued > 0 => closed))
+    \* a flush that reports success leaves no message open on the wire - also not one whose earlier
+    \* flush was given up (the retry terminates it)
+    /\ (J01 /\ ~cancelled /\ ~failing /\ E.st = "ok") => ~wopen
     /\ (J14 /\ failing => E.st \in {"err", "ok"})      \* never a panic; "ok" only if the failure point was not reached
     /\ queued' = 0 /\ wired' = 0 /\ closed' = FALSE /\ judged' = TRUE /\ cancelled' = FALSE /\ failing' = FALSE
-    /\ UNCHANGED <<ps, chan, nr, typ>>
+    /\ UNCHANGED <<ps, chan, nr, typ, wopen>>
 
 Next == T_Reset \/ T_WriteFail \/ T_Chan \/ T_PacketSize \/ T_SetType \/ T_Queue \/ T_Flush \/ T_Send \/ T_Wire \/ T_WireGarbage
         \/ T_QueueEnd \/ T_FlushEnd
